@@ -156,10 +156,15 @@ def load_bounded(sess: Session):
                     ids = {i: f'x-{i + 1:08}-n' for i in range(n)}
                     for i, s in enumerate(nodes):
                         s.id = ids[i]
-                    for nl, final_nl in (('\n', True), ('\n', False), ('\r\n', True), ('\r\n', False)):
-                        # line ends LF / CRLF, last record with or without a terminating line end
+                    for nl, final_nl, sep, trail in (('\n', True, ' ', ''), ('\n', False, ' ', ''), ('\r\n', True, ' ', ''),
+                                                     ('\r\n', False, ' ', ''), ('\n', True, ' ', ' '), ('\n', False, ' ', ' '),
+                                                     ('\n', True, '\t', ''), ('\n', True, '  ', '\t')):
+                        # line ends LF / CRLF, last record with or without a terminating line end; fields separated by
+                        # any run of blanks, blanks at the end of a record mean nothing (a record is a ROOT record only
+                        # when a third field is there)
                         path = os.path.join(tmp, 'ic.dat')
-                        lines = ['wnver::xyz'] + [f'{i + 1}n {10 * (i + 1)}.5{" ROOT" if i in roots else ""}' for i in listed]
+                        lines = ['wnver::xyz'] + [f'{i + 1}n{sep}{10 * (i + 1)}.5{sep + "ROOT" if i in roots else ""}{trail}'
+                                                  for i in listed]
                         with open(path, 'w', newline='') as fh:
                             fh.write(nl.join(lines) + (nl if final_nl else ''))
                         cases += 1
@@ -167,7 +172,7 @@ def load_bounded(sess: Session):
                             freq = wnic.load(path, w)
                         except Exception as exc:
                             bad.append({'listed': listed, 'roots': roots, 'line end': repr(nl), 'final': final_nl,
-                                        'error': repr(exc)})
+                                        'separator': repr(sep), 'trailing': repr(trail), 'error': repr(exc)})
                             continue
                         want = {p: {None: 0.0} for p in 'nvar'}
                         for i in range(n):
@@ -177,7 +182,8 @@ def load_bounded(sess: Session):
                             if i in roots:
                                 want['n'][None] += 10 * (i + 1) + 0.5
                         if freq != want:
-                            bad.append({'n': n, 'listed': listed, 'roots': roots, 'got': freq, 'want': want})
+                            bad.append({'n': n, 'listed': listed, 'roots': roots, 'separator': repr(sep),
+                                        'trailing': repr(trail), 'got': freq, 'want': want})
     finally:
         import shutil
         shutil.rmtree(tmp, ignore_errors=True)
